@@ -5,6 +5,15 @@
 // pool inside its synctest bubble for every run (goroutines started at package
 // init live outside any bubble) and stop it at the end of the run.
 // Nothing else in the file is changed. Exit 2 if the expected pattern is gone.
+//
+// Second product: cmd/zz_sim_runquery.go (a file *added* by the overlay), holding
+// func SimRunQuery: the statements of rootCmd.RunE in cmd/root.go from
+// `statement, err := sqlparser.Parse(args[0])` to the end of the function,
+// copied verbatim (typecheck, optimise, materialise, the per-output-mode choice of
+// Limit / OrderSensitiveTransform, the real printers, sink.Run), with the
+// environment passed in instead of being built from the config file and the
+// installed plugins. The simulator calls it inside its bubble, so what runs under
+// the seeded schedules is RunE's own code, not a copy kept in /verif.
 package main
 
 import (
@@ -18,6 +27,8 @@ import (
 	"go/token"
 	"os"
 	"path/filepath"
+	"strconv"
+	"strings"
 )
 
 const helpers = `
@@ -141,9 +152,110 @@ func main() {
 	if err := os.WriteFile(dst, formatted, 0644); err != nil {
 		fail("%v", err)
 	}
-	ov := map[string]map[string]string{"Replace": {src: dst}}
+	rqSrc, rqDst := genRunQuery(*repo, dir)
+	ov := map[string]map[string]string{"Replace": {src: dst, rqSrc: rqDst}}
 	data, _ := json.MarshalIndent(ov, "", " ")
 	if err := os.WriteFile(filepath.Join(*out, "overlay.json"), data, 0644); err != nil {
 		fail("%v", err)
 	}
+}
+
+
+// genRunQuery writes overlay/cmd_sim_runquery.go and returns (path it is overlaid at, generated file).
+func genRunQuery(repo, dir string) (string, string) {
+	src := filepath.Join(repo, "cmd/root.go")
+	data, err := os.ReadFile(src)
+	if err != nil {
+		fail("%v", err)
+	}
+	fset := token.NewFileSet()
+	file, err := parser.ParseFile(fset, src, data, parser.ParseComments)
+	if err != nil {
+		fail("parse %s: %v", src, err)
+	}
+	var runE *ast.FuncLit
+	ast.Inspect(file, func(n ast.Node) bool {
+		kv, ok := n.(*ast.KeyValueExpr)
+		if !ok {
+			return true
+		}
+		if k, ok := kv.Key.(*ast.Ident); ok && k.Name == "RunE" {
+			if fl, ok := kv.Value.(*ast.FuncLit); ok && runE == nil {
+				runE = fl
+			}
+		}
+		return true
+	})
+	if runE == nil {
+		fail("rootCmd's RunE func literal not found in %s", src)
+	}
+	first := -1
+	for i, st := range runE.Body.List {
+		as, ok := st.(*ast.AssignStmt)
+		if !ok || len(as.Lhs) != 2 || len(as.Rhs) != 1 {
+			continue
+		}
+		if id, ok := as.Lhs[0].(*ast.Ident); !ok || id.Name != "statement" {
+			continue
+		}
+		if call, ok := as.Rhs[0].(*ast.CallExpr); ok {
+			if sel, ok := call.Fun.(*ast.SelectorExpr); ok && sel.Sel.Name == "Parse" {
+				first = i
+			}
+		}
+	}
+	if first < 0 {
+		fail("`statement, err := sqlparser.Parse(args[0])` not found in RunE of %s", src)
+	}
+	lo := fset.Position(runE.Body.List[first].Pos()).Offset
+	hi := fset.Position(runE.Body.Rbrace).Offset
+	tail := string(data[lo:hi])
+	// package names used in the tail (+ the wrapper's own): keep only those imports
+	used := map[string]bool{"context": true, "physical": true, "manager": true}
+	for _, st := range runE.Body.List[first:] {
+		ast.Inspect(st, func(n ast.Node) bool {
+			if sel, ok := n.(*ast.SelectorExpr); ok {
+				if x, ok := sel.X.(*ast.Ident); ok && x.Obj == nil {
+					used[x.Name] = true
+				}
+			}
+			return true
+		})
+	}
+	var imports []string
+	for _, im := range file.Imports {
+		path, _ := strconv.Unquote(im.Path.Value)
+		name := path[strings.LastIndex(path, "/")+1:]
+		if i := strings.LastIndex(name, ".v"); i > 0 {
+			name = name[:i]
+		}
+		if im.Name != nil {
+			name = im.Name.Name
+		}
+		if used[name] {
+			if im.Name != nil {
+				imports = append(imports, "\t"+im.Name.Name+" "+im.Path.Value)
+			} else {
+				imports = append(imports, "\t"+im.Path.Value)
+			}
+		}
+	}
+	var b bytes.Buffer
+	b.WriteString("// Code generated by /verif/tools/mkoverlay from cmd/root.go (simulator builds only). DO NOT EDIT.\n\n")
+	b.WriteString("package cmd\n\nimport (\n" + strings.Join(imports, "\n") + "\n)\n\n")
+	b.WriteString("// SimRunQuery is rootCmd.RunE from sqlparser.Parse to the end, verbatim; the environment is the caller's.\n")
+	b.WriteString("func SimRunQuery(ctx context.Context, query string, env physical.Environment, outputMode string, optimizeFlag bool, describeFlag bool) error {\n")
+	b.WriteString("\targs := []string{query}\n\tvar installedPlugins []manager.PluginMetadata\n")
+	b.WriteString("\toutput, optimize, describe, explain = outputMode, optimizeFlag, describeFlag, 0\n\t")
+	b.WriteString(tail)
+	b.WriteString("}\n")
+	formatted, err := format.Source(b.Bytes())
+	if err != nil {
+		fail("format generated SimRunQuery: %v\n%s", err, b.String())
+	}
+	dst := filepath.Join(dir, "cmd_sim_runquery.go")
+	if err := os.WriteFile(dst, formatted, 0644); err != nil {
+		fail("%v", err)
+	}
+	return filepath.Join(repo, "cmd/zz_sim_runquery.go"), dst
 }
